@@ -427,7 +427,7 @@ def check_bounds(ctx) -> None:
         ts = ctx.inf.type_of(fn, e)
         return any(t == ("cls", "Reaction") for t in ts) or (not ts and isinstance(e, ast.Name))
 
-    single = [n for n in walk_local(fn.node) if isinstance(n, ast.Assign) and isinstance(n.targets[0], ast.Attribute) and n.targets[0].attr in ("lower_bound", "upper_bound") and _is_rxn(n.targets[0].value)]
+    single = [n for n in walk_local(fn.node) if isinstance(n, ast.Assign) and isinstance(n.targets[0], ast.Attribute) and n.targets[0].attr in ("lower_bound", "upper_bound") and _is_rxn(n.targets[0].value) and _sources(ctx, fn, n.value) & {"getValue", "getLowerFluxBound", "getUpperFluxBound", "getParameter"}]
     both = [n for n in walk_local(fn.node) if isinstance(n, ast.Assign) and isinstance(n.targets[0], ast.Attribute) and n.targets[0].attr == "bounds" and _is_rxn(n.targets[0].value)]
     if single:
         ctx.bad("C10.bounds", fn, single[0], "the two bounds of a reaction read from SBML are set one at a time through the validating setters: a written pair such as (2000, 3000) cannot be read back")
